@@ -827,6 +827,68 @@ func genDiscardFacts() {
 		}
 		return sites[i].line < sites[j].line
 	})
+	// the conversions themselves: every result of value.To* is a value.New* call (never the argument)
+	type ctor struct {
+		name string
+		ok   bool
+		why  string
+	}
+	var ctors []ctor
+	{
+		p := loadPkg(filepath.Join(repoRoot(), "lib", "value"), valuePkg)
+		found := map[string]bool{}
+		for _, f := range p.Files {
+			for _, decl := range f.Decls {
+				fd, ok := decl.(*ast.FuncDecl)
+				if !ok || fd.Body == nil || fd.Recv != nil {
+					continue
+				}
+				isConv := false
+				for _, n := range freshNames {
+					if n == fd.Name.Name {
+						isConv = true
+					}
+				}
+				if !isConv {
+					continue
+				}
+				found[fd.Name.Name] = true
+				c := ctor{name: fd.Name.Name, ok: true}
+				nret := 0
+				ast.Inspect(fd.Body, func(n ast.Node) bool {
+					if _, isLit := n.(*ast.FuncLit); isLit {
+						return false
+					}
+					if r, ok := n.(*ast.ReturnStmt); ok {
+						nret++
+						call, isCall := func() (*ast.CallExpr, bool) {
+							if len(r.Results) != 1 {
+								return nil, false
+							}
+							c, ok := r.Results[0].(*ast.CallExpr)
+							return c, ok
+						}()
+						if !isCall || !isValueFunc(calleeFunc(p, call), "New*") {
+							c.ok = false
+							c.why += fmt.Sprintf("%s:%d returns something else than a value.New* call; ", p.base(r.Pos()), p.line(r.Pos()))
+						}
+					}
+					return true
+				})
+				if nret == 0 {
+					c.ok = false
+					c.why = "no return statement"
+				}
+				ctors = append(ctors, c)
+			}
+		}
+		for _, n := range freshNames {
+			if !strings.HasSuffix(n, "*") && !found[n] {
+				fatal("conversion value.%s not found", n)
+			}
+		}
+		sort.Slice(ctors, func(i, j int) bool { return ctors[i].name < ctors[j].name })
+	}
 	var o strings.Builder
 	o.WriteString("-- GENERATED by /verif/extract/discardfacts from lib/query and lib/value — do not edit.\n")
 	o.WriteString("-- One entry per value.Discard(x) call site: (a) fresh: every definition of x in the function is a\n")
@@ -841,6 +903,14 @@ func genDiscardFacts() {
 		}
 		fmt.Fprintf(&o, "  ⟨%s, %d, %s, %s, %v, %v, %v, %s⟩%s\n", leanStr(s.file), s.line, leanStr(s.fn), leanStr(s.v), s.fresh, s.used, s.escape,
 			leanStr(strings.Join(s.why, "; ")), sep)
+	}
+	o.WriteString("]\n\n/-- (conversion, every return statement is a value.New* call, detail) -/\ndef conversionFacts : List (String × Bool × String) := [\n")
+	for i, c := range ctors {
+		sep := ","
+		if i == len(ctors)-1 {
+			sep = ""
+		}
+		fmt.Fprintf(&o, "  (%s, %v, %s)%s\n", leanStr(c.name), c.ok, leanStr(c.why), sep)
 	}
 	o.WriteString("]\n\nend Csvq.Gen\n")
 	fmt.Print(o.String())
